@@ -81,7 +81,8 @@ def bind_key(I, state, sym, roles, constraint=None):
     # a role with a trace partition starts from exactly the partition's state (case distinction);
     # everything else starts from the default closed under the states written so far
     saved = state.written
-    tags = set(r[0] if isinstance(r, tuple) else r for r in roles)
+    I.sym_info[sym] = (frozenset(roles), constraint)
+    tags = I.role_tags(frozenset(roles))
     if constraint is None and any(t in I.cfg.cell_init for t in tags):
         state.written = frozenset()
     I.load_root(state, root)
